@@ -103,6 +103,12 @@ def make_spy_factory(base_cls, spy):
     class SpyIO(base_cls):
         _spy = spy
 
+        def __init__(self, *args, **kwargs):
+            super().__init__(*args, **kwargs)
+            # what a backend with per-session bookkeeping does (a quota, a journal, open handles): a container of its
+            # own, made in its constructor - one per session, since the server makes one backend instance per session
+            self.session_journal = []
+
         async def exists(self, path):
             await _hit("exists", path)
             return await super().exists(path)
